@@ -19,7 +19,7 @@ T = {
  "C08a": ("C08", r"dq_pop_2$"),
  "C08b": ("C08", r"s_eviction_counters_never_overflow$"),
  "C09a": ("C09", None, "self-deadlock on a DashMap shard lock: the container model has no locks and no schedules are explored"),
- "C09b": ("C09", None, "needs evict_lru_entries on the sync cache (no verdict within caps)"),
+ "C09b": ("C09", r"l_evict_lru_terminates_on_unevictable_node$"),
  "C11a": ("C11", r"insert_new_ttl_full$"),
  "C11b": ("C11", r"invalidate_of_a_pending_insert_queues_its_removal$"),
  "C13a": ("C13", r"insert_new_n2_w_no_prefix$"),
